@@ -97,6 +97,12 @@ func (w *Worker) callBuiltin(fn *ssa.Builtin, args []Value) Value {
 			}
 			return tt.BV(64, uint64(len(x.m)))
 		case *ChanV:
+			if w.sched != nil {
+				if x == nil || w.chanCap(x) == 0 {
+					return tt.BV(64, 0)
+				}
+				return tt.BV(64, uint64(len(x.items)))
+			}
 			return tt.BV(64, uint64(len(x.buf)))
 		}
 	case "cap":
@@ -146,6 +152,10 @@ func (w *Worker) callBuiltin(fn *ssa.Builtin, args []Value) Value {
 		return ComplexV{args[0].(*Term), args[1].(*Term)}
 	case "close":
 		ch := args[0].(*ChanV)
+		if w.sched != nil {
+			w.chanCloseSched(ch)
+			return nil
+		}
 		ch.closed = true
 		return nil
 	case "panic":
@@ -274,9 +284,16 @@ func (w *Worker) external(fn *ssa.Function, args []Value) (Value, bool) {
 			return nil, true
 		case "(*sync.Mutex).Lock", "(*sync.Mutex).Unlock", "(*sync.RWMutex).Lock", "(*sync.RWMutex).Unlock",
 			"(*sync.RWMutex).RLock", "(*sync.RWMutex).RUnlock", "(*sync.WaitGroup).Add", "(*sync.WaitGroup).Done", "(*sync.WaitGroup).Wait":
+			if w.sched != nil {
+				w.syncCall(name, args)
+			}
 			return nil, true
 		case "(*sync.Once).Do":
 			p := args[0].(Ptr)
+			if w.sched != nil {
+				w.onceDo(p, args[1])
+				return nil, true
+			}
 			if !w.onceDone[p.Slot] {
 				w.onceDone[p.Slot] = true
 				w.callValue(args[1], nil)
@@ -292,9 +309,36 @@ func (w *Worker) external(fn *ssa.Function, args []Value) (Value, bool) {
 			v := w.declareInput(fmt.Sprintf("env.GOMAXPROCS#%d", w.gmpSeq), BVSort(64), "int")
 			w.assume(tt.And(tt.BVSle(tt.BV(64, 1), v), tt.BVSle(v, tt.BV(64, 64))))
 			return v, true
-		case "KeepAlive", "Gosched", "GC":
+		case "Gosched":
+			if w.sched != nil {
+				w.yield()
+			}
+			return nil, true
+		case "KeepAlive", "GC":
 			return nil, true
 		}
+	case "time":
+		switch name {
+		case "time.Now":
+			w.stats.Stubs["time.Now returns the zero Time; time.Since returns an arbitrary non-decreasing non-negative duration"]++
+			return w.zero(fn.Signature.Results().At(0).Type()), true
+		case "time.Since":
+			w.timeSeq++
+			v := w.declareInput(fmt.Sprintf("env.since#%d", w.timeSeq), BVSort(64), "int")
+			lo := tt.BV(64, 0)
+			if w.lastSince != nil {
+				lo = w.lastSince
+			}
+			w.assume(tt.BVSle(lo, v))
+			w.lastSince = v
+			return v, true
+		case "time.Sleep":
+			if w.sched != nil {
+				w.yield()
+			}
+			return nil, true
+		}
+		return nil, false
 	case "os":
 		panic(unsupported("os function %s", name))
 	case "reflect":
